@@ -46,10 +46,13 @@ def shard_pm2(seed, n):
             cmds = [('B', rnd.randrange(256)) for _ in range(rnd.choice([1000, 2030, 4090, 8100, 12200]))] \
                 + [('C', rnd.choice([1, 5, 900]), rnd.choice([64, 129, 256]))] + pmarc.pm2_gen(rnd, 300)[1:]
             cmds = [c for c in cmds]
+        if i == 4:
+            # every distance the 8 KiB window permits, once each
+            cmds = [('B', (k * 61 + (k >> 8)) & 0xff) for k in range(8300)] + [('C', d, 3 + (d % 4)) for d in range(1, 8193)]
         exp = pmarc.expand_pm(cmds)
         stream, marks = pmarc.pm2_serialise(cmds, rnd, feat)
         c = dech.Case('-pm2-', stream, len(exp), sched=[rnd.choice([1, 100, 256, 5000])] if rnd.random() < 0.3 else [],
-                      meta={'tag': 'mtf-directed' if directed else 'random', 'features': sorted(feat)})
+                      meta={'tag': 'mtf-directed' if directed else 'every-distance' if i == 4 else 'random', 'features': sorted(feat)})
         cases.append(c)
         expect.append(exp)
         sh.evaluated(stream, nontrivial=any(f.startswith('copy') for f in feat) and len(exp) > 1024)
